@@ -13,6 +13,7 @@ import (
 type listInst struct {
 	s     stackage.Stack
 	m     *listModel
+	by    *listInst // a second, unrelated instance of the same configuration that is put through the same calls in turn
 	tok   int    // fresh-token counter
 	shape string // listCfg.Tok
 }
@@ -325,7 +326,13 @@ func c01Machine(c *Ctx, cfg listCfg) *Machine[*listInst] {
 	}
 	return &Machine[*listInst]{
 		Name:     "C01 " + cfg.String(),
-		New:      cfg.build,
+		New: func() *listInst {
+			in := cfg.build()
+			if cfg.Prefill == 0 {
+				in.by = cfg.build()
+			}
+			return in
+		},
 		MaxDepth: depth,
 		NumOps:   len(ops),
 		OpName:   func(in *listInst, op int) string { return ops[op].name },
@@ -336,6 +343,13 @@ func c01Machine(c *Ctx, cfg listCfg) *Machine[*listInst] {
 				before, bkey = showList(in.m.items)+fmt.Sprint(in.m.fifo), stackKey(in.s)
 			}
 			ret := ops[op].run(in)
+			if in.by != nil {
+				// the same call on an unrelated instance, right afterwards: two instances have nothing in
+				// common, whatever the package keeps behind the scenes
+				if r2 := ops[op].run(in.by); r2 != "" && ret == "" {
+					ret = "(on the second, unrelated instance) " + r2
+				}
+			}
 			if !check {
 				return nil
 			}
@@ -350,6 +364,11 @@ func c01Machine(c *Ctx, cfg listCfg) *Machine[*listInst] {
 			}
 			for _, b := range compareList(in.s, in.m) {
 				out = append(out, "content:"+cls+":"+obsClass(b)+"\x00"+b)
+			}
+			if in.by != nil {
+				for _, b := range compareList(in.by.s, in.by.m) {
+					out = append(out, "content-of-unrelated-instance:"+cls+":"+obsClass(b)+"\x00(a second instance that went through the same calls, each right after the first) "+b)
+				}
 			}
 			return out
 		},
